@@ -651,9 +651,14 @@ func (w *AWorld) runLoop(o loopOpts) {
 				if !c.finished.Load() && c.next < len(c.plan) {
 					left = true
 				}
+				// a call that has been started and not answered yet is still workload: who runs
+				// next while it is being served stays a tape decision (the fair drain is only the tail)
+				if c.next > 0 && !c.plan[c.next-1].done.Load() {
+					left = true
+				}
 			}
 			if !left || len(cats[1]) == 0 {
-				return // nothing left to start (or nothing runnable at all): drain
+				return // nothing left to start or to answer (or nothing runnable at all): drain
 			}
 		}
 		weights := [4]int{o.wClient, o.wLoop, o.wClock, o.wExtra}
